@@ -13,6 +13,7 @@ Import ListNotations.
 Local Open Scope Z_scope.
 
 Definition ranks : list Z := [0; 1; 2; 3; 4; 5; 6; 7].
+Definition files : list Z := [0; 1; 2; 3; 4; 5; 6; 7].
 
 (** colour of the pawn on (f,r), if any: true = white *)
 Definition pawn_color (b : board) (f r : Z) : option bool :=
@@ -24,18 +25,29 @@ Definition column (b : board) (f : Z) : list bool :=
 
 Definition dark_square (f r : Z) : bool := Z.even (f + r).      (* a1 is dark *)
 
-Definition count_on (b : board) (pc : piece) (sel : Z -> Z -> bool) : Z :=
-  Z.of_nat (length (filter (fun c => sel (fst c) (snd c) && N.eqb (at_ b (fst c) (snd c)) pc) all_coords)).
+(** number of board entries (index i = square number, a1 = 0) selected by [g] *)
+Fixpoint cnti (g : nat -> piece -> bool) (i : nat) (l : list piece) : Z :=
+  match l with
+  | [] => 0
+  | x :: t => (if g i x then 1 else 0) + cnti g (S i) t
+  end.
 
+Definition dark_idx (i : nat) : bool := dark_square (Z.of_nat i mod 8) (Z.of_nat i / 8).
+
+(** pieces [pc] standing on squares of the colour selected by [sel] (applied to "is dark") *)
+Definition count_on (b : board) (pc : piece) (sel : bool -> bool) : Z :=
+  cnti (fun i p => sel (dark_idx i) && N.eqb p pc) 0 b.
+
+(** the piece types of the kernel state (ProofKernel::PieceType without PAWN/KING/EMPTY) *)
 Inductive kpiece := KQ | KR | KDB | KLB | KN.
 
 Definition kcount (b : board) (w : bool) (k : kpiece) : Z :=
   match k with
-  | KQ => cnt b (mk_piece w Queen)
-  | KR => cnt b (mk_piece w Rook)
-  | KDB => count_on b (mk_piece w Bishop) dark_square
-  | KLB => count_on b (mk_piece w Bishop) (fun f r => negb (dark_square f r))
-  | KN => cnt b (mk_piece w Knight)
+  | KQ => count_on b (mk_piece w Queen) (fun _ => true)
+  | KR => count_on b (mk_piece w Rook) (fun _ => true)
+  | KDB => count_on b (mk_piece w Bishop) (fun d => d)
+  | KLB => count_on b (mk_piece w Bishop) negb
+  | KN => count_on b (mk_piece w Knight) (fun _ => true)
   end.
 
 Record kstate := mkK {
@@ -48,7 +60,7 @@ Definition kpieces : list kpiece := [KQ; KR; KDB; KLB; KN].
 
 Definition alpha (sp : spos) : kstate :=
   let b := sp_board sp in
-  mkK (map (column b) ranks) (map (kcount b true) kpieces) (map (kcount b false) kpieces).
+  mkK (map (column b) files) (map (kcount b true) kpieces) (map (kcount b false) kpieces).
 
 (** * The step relation of the kernel space (with promotions made explicit) *)
 Definition counts_of (s : kstate) (w : bool) : list Z := if w then k_white s else k_black s.
@@ -92,7 +104,17 @@ Definition victim_ok (s : kstate) (w : bool) (v : victim) : Prop :=
   | VPiece k => 0 < nth (kidx k) (counts_of s (negb w)) 0
   end.
 
-(** one move of colour [w] seen in the kernel space *)
+(** one move of colour [w] seen in the kernel space.  Correspondence with the move kinds of
+    ProofKernel::PkMove (proofkernel.hpp):
+      ks_piece_takes (VPiece k)        pieceXPiece   ("bxR")         - also covers a taken promoted piece, which the
+                                                                       code books as takenPiece with otherPromotionFile
+      ks_piece_takes (VPawn f i)       pieceXPawn    ("bxPc0")
+      ks_pawn_takes .. (VPawn f' j)    pawnXPawn     ("wPc0xPb1")    - the taker takes the index of the victim
+      ks_pawn_takes .. (VPiece k)      pawnXPiece / pawnXPromPawn ("wPc0xRb0", "wPc0xfb0"): inserted at index j
+      ks_pawn_takes_promotes           pawnXPieceProm / pawnXPromPawnProm ("wPc0xRbQ", "wPc0xfbR")
+      ks_promote                       the non-capture promotions the kernel search keeps implicit
+                                       (PawnColumn::isComplete / nAllowedPromotions)
+      ks_stutter                       every move that is neither a capture nor a promotion *)
 Inductive kstep (w : bool) (s : kstate) : kstate -> Prop :=
 | ks_stutter : kstep w s s
     (* any non-capture, non-promotion move *)
